@@ -189,7 +189,21 @@ def sr (st : St) (fs : List String) (impl : String) : St × String × String :=
             | _, _, _ => none
           match refuseV with
           | some v => v
-          | none => durVerdict
+          | none =>
+            -- k = retries since the last pushback
+            let isp := (getKV ifs "sp").toNat?
+            let kV : Option String :=
+              if iword == "retry" then
+                match d, isp with
+                | .backoff _ true, some k => if k = 0 then none else some "VIOL a retry honouring a pushback did not reset the backoff exponent k"
+                | .backoff _ false, some k => if k = sp + 1 then none else some "VIOL a timed retry did not advance the backoff exponent k by one"
+                | _, _ => none
+              else match isp with
+                | some k => if iword != "ctxerr" ∧ k ≠ sp then some "VIOL the backoff exponent k changed without a retry" else none
+                | none => none
+            match kV with
+            | some v => v
+            | none => durVerdict
     let thr' := match st.thr, itok with
       | some t, some (some k) => some { t with tokens := k }
       | t, _ => t
